@@ -113,6 +113,13 @@ def run(tier):
         io = [H.OP_INPUT1, H.OP_INPUT2]
         gs = [g for g in groups(L - 1, H.ops_action(io, api), quick=True) if "^" in g.label]
         J("yyinput-" + api, gs, {"VF_OPMASK": H.opmask(*io), "VF_BUDGET_DEFAULT": 1, "VF_BUDGET_TOTAL": 1}, api=api)
+    # yymore() before a trailing-context rule: the head/trail split is measured from the start of the new match, not of the kept text
+    # (round-5 seed C06-r5m3)
+    mo = [H.OP_MORE]
+    for api, extra in (("NR", {}), ("R", dict(options=["reentrant"])), ("C99", {}), ("NR", dict(options=["array"], cdefs=["VF_ARRAY"]))):
+        tcg = [g for g in groups(L - 1, H.ops_action(mo, api), quick=True) if "/" in g.label or "$" in g.label]
+        J("yymore-%s%s" % (api, "-array" if "cdefs" in extra else ""), tcg, {"VF_OPMASK": H.opmask(*mo), "VF_BUDGET_DEFAULT": 1 if quick else 2,
+                                                                  "VF_BUDGET_TOTAL": 1 if quick else 2, "VF_BUFSIZES": "0" if quick else "0,16"}, api=api, **extra)
     sb = [H.OP_SETBOL]
     J("setbol", groups(L - 1, H.ops_action(sb), quick=True), {"VF_OPMASK": H.opmask(*sb), "VF_BUDGET_DEFAULT": 1, "VF_BUDGET_TOTAL": 1})
 
